@@ -156,7 +156,7 @@ def main(argv):
                     known_hits[k["id"]] += 1
                     continue
                 sig = (code, cls)
-                if sig in seen_sig and len(violations) >= 5:
+                if len(violations) >= 5 or (sig in seen_sig and len(violations) >= 2):
                     continue
                 seen_sig.add(sig)
                 p = write_replay(cfg, case, code, a.tier, seed_used)
